@@ -18,6 +18,7 @@ import (
 type invCase struct {
 	Case
 	Kind string
+	Warm *Case // a valid request sent first on the same gateway (same document text)
 }
 
 var InvalidKinds = []string{"unknown-field", "unknown-type-condition", "unknown-argument", "unknown-directive", "wrong-literal-type",
@@ -195,7 +196,13 @@ func invalidate(s *ast.Schema, q string) []invCase {
 			if text == "" {
 				text = printDoc(d)
 			}
-			out = append(out, invCase{Case: Case{Q: text, Vars: map[string]interface{}{}, OpName: opName, Dec: fmt.Sprintf("%s@%d", k, p)}, Kind: k})
+			ic := invCase{Case: Case{Q: text, Vars: map[string]interface{}{}, OpName: opName, Dec: fmt.Sprintf("%s@%d", k, p)}, Kind: k}
+			switch k {
+			case "unknown-operation-name", "ambiguous-operation":
+				// the same document text is valid when the operation is named correctly
+				ic.Warm = &Case{Q: text, Vars: map[string]interface{}{}, OpName: "A1"}
+			}
+			out = append(out, ic)
 		}
 	}
 	return out
@@ -272,8 +279,8 @@ func init() {
 		Level: "exploration",
 		Rule: "part 1 (inv): for every valid operation with <=K fields, every single invalidating mutation (19 kinds: unknown field/type condition/argument/directive, wrong literal, undeclared/unused/mistyped variable, " +
 			"required argument removed, scalar with / object without selection, fragment cycle, unknown fragment, duplicate/ambiguous/unknown operation name, conflicting response keys, wrong root type, syntax error) at every position; " +
-			"mutants that stay valid are skipped; oracle: no downstream request, errors non-empty, data null, status 200. " +
-			"part 2 (err): for every operation with <=K fields, a GraphQL error payload (1 or 2 errors with unicode message, nested extensions, path, locations) injected at every downstream call and every position of its batch; " +
+			"mutants that stay valid are skipped; operation-name mutations are sent after a valid request with the same document text; oracle: no downstream request, errors non-empty, data null, status 200. " +
+			"part 2 (err): for every operation with <=K fields, a GraphQL error payload (1 or 2 errors, also two with the same message; unicode message, nested extensions, path, locations) injected at every downstream call and every position of its batch; " +
 			"oracle: every downstream error is in the client's errors with equal message, extensions and path; non-trivial = invalid-by-validator (part 1) / fault actually hit a sub-request (part 2)",
 		Assumptions: []string{"gqlparser's validator on the merged schema defines 'invalid'", "the in-memory services log every request they receive"},
 		Jobs:        c10Jobs,
@@ -318,6 +325,9 @@ func init() {
 							}
 							continue
 						}
+						if ic.Warm != nil {
+							f.Post(caseBody(*ic.Warm), "application/json")
+						}
 						f.Fakes.Reset()
 						status, body := f.Post(caseBody(ic.Case), "application/json")
 						var sigs []string
@@ -361,7 +371,7 @@ func init() {
 				calls := append([]HTTPCall{}, f.Fakes.Calls...)
 				for ci, hc := range calls {
 					for pos := 0; pos < hc.Size; pos++ {
-						for _, kind := range []string{"errors1", "errors2"} {
+						for _, kind := range []string{"errors1", "errors2", "errors2same"} {
 							idx++
 							if idx-1 < from {
 								continue
@@ -394,11 +404,14 @@ func init() {
 							} else if hit {
 								got, _ := resp["errors"].([]interface{})
 								n := 1
-								if kind == "errors2" {
+								if kind != "errors1" {
 									n = 2
 								}
 								for i := 1; i <= n; i++ {
 									want := errPayload(i)
+									if kind == "errors2same" {
+										want["message"] = errPayload(1)["message"]
+									}
 									found := false
 									for _, g := range got {
 										if gm, ok := g.(map[string]interface{}); ok && errEqual(want, gm) {
